@@ -9,3 +9,10 @@ func (c *TTLCache) VerifExpire(key string) {
 	defer c.mu.Unlock()
 	c.evictLocked(key)
 }
+
+// VerifLock / VerifUnlock take and release the cache mutex, so that a harness can park
+// concurrent callers on it and release them together (forced interleavings).
+func (c *TTLCache) VerifLock()   { c.mu.Lock() }
+func (c *TTLCache) VerifUnlock() { c.mu.Unlock() }
+func (c *LRUCache) VerifLock()   { c.mu.Lock() }
+func (c *LRUCache) VerifUnlock() { c.mu.Unlock() }
